@@ -78,6 +78,9 @@ def check(case):
             klass, ns = subclasses.NamespaceHashClient, subclasses._ns
         hc = klass(config, socket_module=env.net, key_prefix=prefix, use_pooling=case.get("pooling", False), default_noreply=False)
         keys = list(case["keys"])          # entries: key | (server_key, key)
+        # a server key may be any text - also one that is spelled like one of the servers ("@nodeN" in a case stands for the name of
+        # the N-th server): it is hashed like any other
+        keys = [(names[int(k[0][5:]) % len(names)], k[1]) if isinstance(k, tuple) and isinstance(k[0], str) and k[0].startswith("@node") else k for k in keys]
         # keys that carry the key prefix themselves: next to some key K the caller also uses the different key prefix+K
         # (on the server: prefix+prefix+K) - str or bytes like its twin
         if prefix and prefix.isascii():
@@ -373,7 +376,7 @@ def case_strategy(tier):
             else:
                 out.append(k)
         return out
-    keys2 = st.builds(pairify, keys, st.lists(st.booleans(), max_size=7), st.lists(st.one_of(keytext, st.just(""), st.just(b"")), min_size=1, max_size=5))
+    keys2 = st.builds(pairify, keys, st.lists(st.booleans(), max_size=7), st.lists(st.one_of(keytext, st.just(""), st.just(b""), st.sampled_from(["@node0", "@node1", "@node2", "@node4"])), min_size=1, max_size=5))
     script = st.lists(st.fixed_dictionaries({"i": st.integers(0, 60), "op": st.sampled_from(
         ["incr", "decr", "touch", "gat", "gats", "append", "prepend", "replace", "add", "cas", "delete", "get"])}), max_size=12)
     dups = st.lists(st.tuples(st.sampled_from(["dup\x7fkey", "d\x7f2", "\x7fx"]), st.lists(st.sampled_from(["tenant-a", "tenant-b", "sk3", "sk4", "zz"]), min_size=2, max_size=4, unique=True)).map(list),
@@ -390,7 +393,7 @@ def grid_cases(tier, seed):
         for pooling, coll in ((False, "list"), (True, "list"), (False, "generator"), (True, "iter"), (False, "tuple"), (True, "map")):
             keys = ["key%d" % (i * 7 + seed) for i in range(50)]
             keys = [k.encode() if i % 3 == 0 else k for i, k in enumerate(keys)]
-            keys = [(("sk%d" % (i % 4)) if i % 15 else "", k) if i % 5 == 0 else k for i, k in enumerate(keys)]
+            keys = [(("@node%d" % i if i % 10 == 5 else "sk%d" % (i % 4)) if i % 15 else "", k) if i % 5 == 0 else k for i, k in enumerate(keys)]
             yield {"addrs": SERVER_POOL[:n - 1] + [SERVER_POOL[-1]], "pooling": pooling, "prefix": b"g:" if n % 2 else b"",
                    "keys": keys, "nest": [3, 11, 22, 40], "refuse_every": (None, 2, 3, 7, 1)[n % 5], "script": [{"i": i, "op": op} for i, op in enumerate(
                        ["incr", "touch", "gat", "append", "cas", "delete", "add", "decr", "gats", "prepend", "replace", "get"])],
